@@ -57,6 +57,7 @@ CONSTANTS
     MaxToggle,      \* agent stops / starts listening
     Units,          \* tokens per response frame (>= 2: a frame can be split)
     RTC,            \* run-to-completion: internal steps first (replay)
+    KeepLog,        \* keep the labels of the behaviour in log (export)
     \* ---- rules; the values in the comment are the specification ---------
     UseLock,        \* TRUE
     DropOnError,    \* TRUE   (FALSE: the broken connection is used again)
@@ -88,7 +89,12 @@ AlgSeqs == {<<>>} \cup (IF AlgDepth >= 1 THEN {<<a>> : a \in Algs} ELSE {})
 NoKey == "-"
 Ops ==
     {[k |-> kk, key |-> NoKey, a |-> <<>>] :
-        kk \in {"list", "removeall", "lock", "query"} \cap OpKinds}
+        kk \in {"list", "removeall", "lock", "query", "scremove"} \cap OpKinds}
+    \* get_keys(identities = [x])
+    \cup {[k |-> "list", key |-> x, a |-> <<>>] :
+            x \in IF "listonly" \in OpKinds THEN Keys ELSE {}}
+    \cup {[k |-> "scadd", key |-> NoKey, a |-> <<c>>] :
+            c \in IF "scadd" \in OpKinds THEN Cons ELSE {}}
     \cup {[k |-> "unlock", key |-> NoKey, a |-> <<p>>] :
             p \in IF "unlock" \in OpKinds THEN {"right", "wrong"} ELSE {}}
     \cup {[k |-> "sign", key |-> x, a |-> s] :
@@ -110,7 +116,8 @@ SentFlags(a) ==
          (IF \E j \in 1..Len(a) : a[j] = "s512" THEN 4 ELSE 0)
 
 NoResp == [t |-> "none", ids |-> {}, key |-> NoKey, fl |-> 0, n |-> 0, need |-> 0]
-Eof == [s |-> 0, i |-> 0]
+Eof == [s |-> 0, i |-> 0, r |-> NoResp]
+NoOp == [k |-> "none", key |-> NoKey, a |-> <<>>]
 
 VARIABLES
     \* ---- agent ----
@@ -121,21 +128,20 @@ VARIABLES
     conn,       \* "none" | "open"   (the client holds a reader / writer)
     tainted,    \* an error was reported to a caller on this connection
     aopen,      \* the agent's end of it is open
-    c2a,        \* requests (serials) written and not yet processed
+    c2a,        \* requests [s, op, fl] written and not yet processed
     orphans,    \* requests left on connections the client has dropped
-    out,        \* tokens the agent has produced and not yet delivered (+ Eof)
+    out,        \* tokens [s, i, r] the agent has produced, not yet delivered (+ Eof)
     rbuf,       \* tokens delivered to the client's reader, not consumed
     eofd,       \* end of file delivered to the client's reader
     \* ---- callers ----
     pc,         \* caller -> "idle" | "wait" | "locked" | "conn" | "sent" | "done"
     ser,        \* caller -> serial of its current / last call
+    op,         \* caller -> operation of its current / last call
     queue,      \* callers waiting for the lock, FIFO
     holder,     \* caller holding the lock (0: free)
     res,        \* caller -> result of its last call
     cc,         \* caller -> connections opened during its current call
     \* ---- history ----
-    reqs,       \* serial -> [c, op, fl]  (fl: flags of a sign request)
-    resp,       \* serial -> what the agent answered
     bad,        \* set of rule names seen broken
     ncalls, nfaults, ncancel, ncloses, ntoggle,
     \* ---- forwarding part ----
@@ -148,14 +154,19 @@ VARIABLES
     down,       \* channel -> [w, got, disc, end, endgot]                agent -> server
     dheld,      \* agent -> server items held on the SSH link (all channels, FIFO)
     fbad,
-    lbl
+    lbl,
+    log         \* KeepLog: the labels so far (behaviour export)
 
 cvars == <<store, locked, listening, conn, tainted, aopen, c2a, orphans, out,
-           rbuf, eofd, pc, ser, queue, holder, res, cc, reqs, resp, bad,
+           rbuf, eofd, pc, ser, op, queue, holder, res, cc, bad,
            ncalls, nfaults, ncancel, ncloses, ntoggle>>
 fvars == <<sess, asked, lsn, agentup, ch, up, down, dheld, fbad>>
-vars == <<cvars, fvars, lbl>>
+vars == <<cvars, fvars, lbl, log>>
 view == <<cvars, fvars>>
+
+Lbl(l) == lbl' = l /\ log' = IF KeepLog THEN Append(log, l) ELSE log
+CP == Part = "client" /\ UNCHANGED fvars
+FP == Part = "fwd" /\ UNCHANGED cvars
 
 NoRes == [k |-> "none", ids |-> {}, key |-> NoKey, fl |-> 0, from |-> 0]
 
@@ -177,6 +188,7 @@ RespOf(st, lk, o, fl) ==
       [] o.k = "lock" -> IF lk THEN no ELSE ok
       [] o.k = "unlock" -> IF lk /\ o.a = <<"right">> THEN ok ELSE no
       [] o.k = "query" -> IF lk THEN no ELSE [NoResp EXCEPT !.t = "exts"]
+      [] o.k \in {"scadd", "scremove"} -> IF lk THEN no ELSE ok
 
 StoreAfter(st, lk, o) ==
     IF lk THEN st
@@ -190,14 +202,16 @@ LockAfter(lk, o) ==
       [] o.k = "unlock" /\ o.a = <<"right">> -> FALSE
       [] OTHER -> lk
 
-\* what a caller of operation o makes of a complete frame r
+\* what a caller of operation o makes of a complete frame r (answer to serial s)
 Decode(o, r, s) ==
     LET R(kind) == [NoRes EXCEPT !.k = kind, !.from = s]
-        succ == {"add", "remove", "removeall", "lock", "unlock"} IN
+        succ == {"add", "remove", "removeall", "lock", "unlock", "scadd", "scremove"} IN
     CASE r.t = "zero" -> R("lost")        \* no type byte: decode error inside
       [] r.t = "bad" -> R("dec")
       [] r.t = "wrong" -> R("unk")
-      [] r.t = "ids" -> IF o.k = "list" THEN [R("ok") EXCEPT !.ids = r.ids]
+      [] r.t = "ids" -> IF o.k = "list"
+                        THEN [R("ok") EXCEPT !.ids = IF o.key = NoKey THEN r.ids
+                                                     ELSE r.ids \cap {o.key}]
                         ELSE R("unk")
       [] r.t = "sig" -> IF o.k = "sign"
                         THEN [R("ok") EXCEPT !.key = r.key, !.fl = r.fl]
@@ -235,9 +249,10 @@ ClientInit ==
     /\ conn = "none" /\ tainted = FALSE /\ aopen = FALSE
     /\ c2a = <<>> /\ orphans = {} /\ out = <<>> /\ rbuf = <<>> /\ eofd = FALSE
     /\ pc = [i \in Callers |-> "idle"] /\ ser = [i \in Callers |-> 0]
+    /\ op = [i \in Callers |-> NoOp]
     /\ queue = <<>> /\ holder = 0
     /\ res = [i \in Callers |-> NoRes] /\ cc = [i \in Callers |-> 0]
-    /\ reqs = <<>> /\ resp = <<>> /\ bad = {}
+    /\ bad = {}
     /\ ncalls = 0 /\ nfaults = 0 /\ ncancel = 0 /\ ncloses = 0 /\ ntoggle = 0
 
 \* ---- internal steps of the client (no suspension point before them) ------
@@ -245,14 +260,17 @@ Acquire(i) ==
     /\ UseLock /\ holder = 0 /\ queue # <<>> /\ Head(queue) = i
     /\ holder' = i /\ queue' = Tail(queue)
     /\ pc' = [pc EXCEPT ![i] = "locked"]
-    /\ lbl' = <<"acquire", i>>
-    /\ UNCHANGED <<store, locked, listening, ser, res, cc, reqs, resp, bad,
+    /\ Lbl(<<"acquire", i>>)
+    /\ UNCHANGED <<store, locked, listening, ser, op, res, cc, bad,
                    ncalls, nfaults, ncancel, ncloses, ntoggle>>
-    /\ KeepConn
+    /\ KeepConn /\ CP
+
+MyReq(i) == [s |-> ser[i], op |-> op[i],
+             fl |-> IF op[i].k = "sign" THEN SentFlags(op[i].a) ELSE 0]
 
 \* the request is written (it is lost when the agent's end is closed)
 Written(i) ==
-    /\ c2a' = IF aopen' THEN Append(c2a, ser[i]) ELSE c2a
+    /\ c2a' = IF aopen' THEN Append(c2a, MyReq(i)) ELSE c2a
     /\ bad' = bad
         \cup (IF conn = "open" /\ tainted THEN {"usebroken"} ELSE {})
         \cup (IF conn = "open" /\ (c2a # <<>> \/ rbuf # <<>> \/
@@ -266,10 +284,11 @@ Start(i) ==
             /\ UNCHANGED <<c2a, bad>>
        ELSE /\ pc' = [pc EXCEPT ![i] = "sent"]
             /\ aopen' = aopen /\ Written(i)
-    /\ lbl' = <<"start", i>>
+    /\ Lbl(<<"start", i>>)
     /\ UNCHANGED <<store, locked, listening, conn, tainted, aopen, orphans, out,
-                   rbuf, eofd, ser, queue, holder, res, cc, reqs, resp,
+                   rbuf, eofd, ser, op, queue, holder, res, cc,
                    ncalls, nfaults, ncancel, ncloses, ntoggle>>
+    /\ CP
 
 HeadFrame == rbuf[1].s
 Have == Cardinality({j \in 1..Len(rbuf) : rbuf[j].s = HeadFrame})
@@ -279,9 +298,10 @@ Receive(i) ==
     /\ pc[i] = "sent" /\ (UseLock => holder = i)
     /\ rbuf # <<>>
     /\ LET s == HeadFrame
-           r == resp[s]
-           d == Decode(reqs[ser[i]].op, r, s) IN
+           r == rbuf[1].r
+           d == Decode(op[i], r, s) IN
        /\ Have >= r.need
+       /\ Lbl(<<"receive", i, d>>)
        /\ Finish(i, d)
        /\ IF d.k = "lost"
           THEN IF DropOnError THEN Drop
@@ -289,24 +309,31 @@ Receive(i) ==
                     /\ UNCHANGED <<conn, aopen, orphans, c2a, out, eofd>>
           ELSE /\ rbuf' = SubSeqFrom(rbuf, r.need + 1)
                /\ UNCHANGED <<conn, tainted, aopen, orphans, c2a, out, eofd>>
-    /\ lbl' = <<"receive", i>>
-    /\ UNCHANGED <<store, locked, listening, ser, queue, cc, reqs, resp, bad,
+    /\ UNCHANGED <<store, locked, listening, ser, op, queue, cc, bad,
                    ncalls, nfaults, ncancel, ncloses, ntoggle>>
+    /\ CP
 
 \* end of file before the frame is complete
 Fail(i) ==
     /\ pc[i] = "sent" /\ (UseLock => holder = i)
-    /\ eofd /\ (IF rbuf = <<>> THEN TRUE ELSE Have < resp[HeadFrame].need)
+    /\ eofd /\ (IF rbuf = <<>> THEN TRUE ELSE Have < rbuf[1].r.need)
     /\ Finish(i, [NoRes EXCEPT !.k = "lost"])
     /\ IF DropOnError THEN Drop
        ELSE /\ tainted' = TRUE
             /\ UNCHANGED <<conn, aopen, orphans, c2a, out, rbuf, eofd>>
-    /\ lbl' = <<"fail", i>>
-    /\ UNCHANGED <<store, locked, listening, ser, queue, cc, reqs, resp, bad,
+    /\ Lbl(<<"fail", i>>)
+    /\ UNCHANGED <<store, locked, listening, ser, op, queue, cc, bad,
                    ncalls, nfaults, ncancel, ncloses, ntoggle>>
+    /\ CP
 
 Internal(i) == Acquire(i) \/ Start(i) \/ Receive(i) \/ Fail(i)
-InternalEnabled == \E i \in Callers : ENABLED Internal(i)
+InternalEnabled ==
+    \E i \in Callers :
+        \/ (UseLock /\ holder = 0 /\ queue # <<>> /\ Head(queue) = i)
+        \/ pc[i] = "locked"
+        \/ /\ pc[i] = "sent" /\ (UseLock => holder = i)
+           /\ IF rbuf = <<>> THEN eofd
+              ELSE Have >= rbuf[1].r.need \/ eofd
 Ext == RTC => ~InternalEnabled
 
 \* ---- external steps ---------------------------------------------------------
@@ -314,18 +341,18 @@ Call(i, o) ==
     /\ Ext /\ pc[i] \in {"idle", "done"} /\ ncalls < MaxCalls
     /\ ncalls' = ncalls + 1
     /\ ser' = [ser EXCEPT ![i] = ncalls + 1]
-    /\ reqs' = Append(reqs, [c |-> i, op |-> o,
-                             fl |-> IF o.k = "sign" THEN SentFlags(o.a) ELSE 0])
-    /\ resp' = Append(resp, NoResp)
+    /\ op' = [op EXCEPT ![i] = o]
     /\ cc' = [cc EXCEPT ![i] = 0]
     /\ res' = [res EXCEPT ![i] = NoRes]
+    /\ bad' = bad \cup (IF o.k = "sign" /\ SentFlags(o.a) # WantFlags(o.a)
+                        THEN {"flags"} ELSE {})
     /\ IF UseLock
        THEN /\ queue' = Append(queue, i) /\ pc' = [pc EXCEPT ![i] = "wait"]
        ELSE /\ queue' = queue /\ pc' = [pc EXCEPT ![i] = "locked"]
-    /\ lbl' = <<"call", i, o>>
-    /\ UNCHANGED <<store, locked, listening, holder, bad, nfaults, ncancel,
+    /\ Lbl(<<"call", i, o>>)
+    /\ UNCHANGED <<store, locked, listening, holder, nfaults, ncancel,
                    ncloses, ntoggle>>
-    /\ KeepConn
+    /\ KeepConn /\ CP
 
 \* the connection attempt of caller i completes
 Reconnect(i) ==
@@ -343,11 +370,12 @@ Reconnect(i) ==
        ELSE /\ Finish(i, [NoRes EXCEPT !.k = "lost"])
             /\ UNCHANGED <<bad>>
             /\ KeepConn
-    /\ lbl' = <<"reconnect", i>>
-    /\ UNCHANGED <<store, locked, listening, ser, queue, reqs, resp,
+    /\ Lbl(<<"reconnect", i, conn = "open" \/ listening>>)
+    /\ UNCHANGED <<store, locked, listening, ser, op, queue,
                    ncalls, nfaults, ncancel, ncloses, ntoggle>>
+    /\ CP
 
-Tokens(s, n) == [j \in 1..n |-> [s |-> s, i |-> j]]
+Tokens(s, n, r) == [j \in 1..n |-> [s |-> s, i |-> j, r |-> r]]
 
 \* the agent takes the oldest request of the connection; f: fault, k: tokens
 \* written when the answer is truncated
@@ -356,9 +384,9 @@ AgentProcess(f, k) ==
     /\ f \in {"none"} \cup FaultKinds
     /\ (f # "none" => nfaults < MaxFaults)
     /\ (f = "trunc" => k \in 1..(Units - 1)) /\ (f # "trunc" => k = Units)
-    /\ LET s == Head(c2a)
-           o == reqs[s].op
-           honest == RespOf(store, locked, o, reqs[s].fl)
+    /\ LET q == Head(c2a)
+           o == q.op
+           honest == RespOf(store, locked, o, q.fl)
            does == f \in {"none", "trunc", "over"}
            r == CASE f = "none" -> [honest EXCEPT !.n = Units, !.need = Units]
                   [] f = "trunc" -> [honest EXCEPT !.n = k, !.need = Units]
@@ -369,37 +397,49 @@ AgentProcess(f, k) ==
        /\ store' = IF does THEN StoreAfter(store, locked, o) ELSE store
        /\ locked' = IF does /\ honest.t = "success" THEN LockAfter(locked, o)
                     ELSE locked
-       /\ resp' = [resp EXCEPT ![s] = r]
-       /\ out' = out \o Tokens(s, r.n) \o (IF ends THEN <<Eof>> ELSE <<>>)
+       /\ out' = out \o Tokens(q.s, r.n, r) \o (IF ends THEN <<Eof>> ELSE <<>>)
        /\ aopen' = ~ends
        /\ c2a' = IF ends THEN <<>> ELSE Tail(c2a)
        /\ nfaults' = IF f = "none" THEN nfaults ELSE nfaults + 1
-       /\ lbl' = <<"process", s, f, k>>
-    /\ UNCHANGED <<listening, conn, tainted, orphans, rbuf, eofd, pc, ser, queue,
-                   holder, res, cc, reqs, bad, ncalls, ncancel, ncloses, ntoggle>>
+       /\ Lbl(<<"process", q.s, f, k, r>>)
+    /\ UNCHANGED <<listening, conn, tainted, orphans, rbuf, eofd, pc, ser, op,
+                   queue, holder, res, cc, bad, ncalls, ncancel, ncloses, ntoggle>>
+    /\ CP
 
 \* a request left on a dropped connection is still carried out (no answer)
 ProcessOrphan(s) ==
-    /\ Ext /\ s \in orphans
-    /\ LET o == reqs[s].op IN
-       /\ store' = StoreAfter(store, locked, o)
-       /\ locked' = IF RespOf(store, locked, o, 0).t = "success"
-                    THEN LockAfter(locked, o) ELSE locked
-    /\ orphans' = orphans \ {s}
-    /\ lbl' = <<"orphan", s>>
+    /\ Ext /\ \E q \in orphans : q.s = s
+    /\ LET q == CHOOSE x \in orphans : x.s = s IN
+       /\ store' = StoreAfter(store, locked, q.op)
+       /\ locked' = IF RespOf(store, locked, q.op, 0).t = "success"
+                    THEN LockAfter(locked, q.op) ELSE locked
+       /\ orphans' = orphans \ {q}
+    /\ Lbl(<<"orphan", s>>)
     /\ UNCHANGED <<listening, conn, tainted, aopen, c2a, out, rbuf, eofd, pc, ser,
-                   queue, holder, res, cc, reqs, resp, bad, ncalls, nfaults,
+                   op, queue, holder, res, cc, bad, ncalls, nfaults,
                    ncancel, ncloses, ntoggle>>
+    /\ CP
+
+\* ... or never looked at
+ForgetOrphan(s) ==
+    /\ Ext /\ \E q \in orphans : q.s = s
+    /\ orphans' = {q \in orphans : q.s # s}
+    /\ Lbl(<<"forget", s>>)
+    /\ UNCHANGED <<store, locked, listening, conn, tainted, aopen, c2a, out, rbuf,
+                   eofd, pc, ser, op, queue, holder, res, cc, bad, ncalls,
+                   nfaults, ncancel, ncloses, ntoggle>>
+    /\ CP
 
 \* the agent closes the connection (requests it has not looked at are gone)
 AgentCloses ==
     /\ Ext /\ aopen /\ ncloses < MaxCloses
     /\ aopen' = FALSE /\ c2a' = <<>> /\ out' = Append(out, Eof)
     /\ ncloses' = ncloses + 1
-    /\ lbl' = <<"agentcloses">>
+    /\ Lbl(<<"agentcloses">>)
     /\ UNCHANGED <<store, locked, listening, conn, tainted, orphans, rbuf, eofd,
-                   pc, ser, queue, holder, res, cc, reqs, resp, bad, ncalls,
+                   pc, ser, op, queue, holder, res, cc, bad, ncalls,
                    nfaults, ncancel, ntoggle>>
+    /\ CP
 
 Lead == IF \E j \in 1..Len(out) : out[j] = Eof
         THEN (CHOOSE j \in 1..Len(out) : out[j] = Eof /\
@@ -410,18 +450,20 @@ DeliverChunk(n) ==
     /\ Ext /\ conn = "open" /\ n \in 1..Lead
     /\ rbuf' = rbuf \o SubSeq(out, 1, n)
     /\ out' = SubSeqFrom(out, n + 1)
-    /\ lbl' = <<"deliver", n>>
+    /\ Lbl(<<"deliver", n>>)
     /\ UNCHANGED <<store, locked, listening, conn, tainted, aopen, c2a, orphans,
-                   eofd, pc, ser, queue, holder, res, cc, reqs, resp, bad, ncalls,
+                   eofd, pc, ser, op, queue, holder, res, cc, bad, ncalls,
                    nfaults, ncancel, ncloses, ntoggle>>
+    /\ CP
 
 DeliverEof ==
     /\ Ext /\ conn = "open" /\ out # <<>> /\ Head(out) = Eof
     /\ eofd' = TRUE /\ out' = Tail(out)
-    /\ lbl' = <<"delivereof">>
+    /\ Lbl(<<"delivereof">>)
     /\ UNCHANGED <<store, locked, listening, conn, tainted, aopen, c2a, orphans,
-                   rbuf, pc, ser, queue, holder, res, cc, reqs, resp, bad, ncalls,
+                   rbuf, pc, ser, op, queue, holder, res, cc, bad, ncalls,
                    nfaults, ncancel, ncloses, ntoggle>>
+    /\ CP
 
 Cancel(i) ==
     /\ Ext /\ ncancel < MaxCancel
@@ -432,36 +474,43 @@ Cancel(i) ==
     /\ queue' = Remove(queue, i)
     /\ holder' = IF holder = i /\ ReleaseOnCancel THEN 0 ELSE holder
     /\ IF pc[i] = "sent" /\ DropOnCancel /\ conn = "open" THEN Drop ELSE KeepConn
-    /\ lbl' = <<"cancel", i>>
-    /\ UNCHANGED <<store, locked, listening, ser, cc, reqs, resp, bad, ncalls,
+    /\ Lbl(<<"cancel", i, pc[i]>>)
+    /\ UNCHANGED <<store, locked, listening, ser, op, cc, bad, ncalls,
                    nfaults, ncloses, ntoggle>>
+    /\ CP
 
 \* SSHAgentClient.close(): the writer is closed, the references stay
 UserClose ==
     /\ Ext /\ conn = "open" /\ ~eofd /\ ncloses < MaxCloses
-    /\ (aopen \/ out # <<>>)
     /\ ncloses' = ncloses + 1
     /\ eofd' = TRUE /\ out' = <<>> /\ aopen' = FALSE
     /\ orphans' = orphans \cup SeqSet(c2a) /\ c2a' = <<>>
-    /\ lbl' = <<"userclose">>
-    /\ UNCHANGED <<store, locked, listening, conn, tainted, rbuf, pc, ser, queue,
-                   holder, res, cc, reqs, resp, bad, ncalls, nfaults, ncancel,
+    /\ Lbl(<<"userclose">>)
+    /\ UNCHANGED <<store, locked, listening, conn, tainted, rbuf, pc, ser, op,
+                   queue, holder, res, cc, bad, ncalls, nfaults, ncancel,
                    ntoggle>>
+    /\ CP
 
 ToggleListen ==
     /\ Ext /\ ntoggle < MaxToggle
     /\ ntoggle' = ntoggle + 1 /\ listening' = ~listening
-    /\ lbl' = <<"listen", ~listening>>
+    /\ Lbl(<<"listen", ~listening>>)
     /\ UNCHANGED <<store, locked, conn, tainted, aopen, c2a, orphans, out, rbuf,
-                   eofd, pc, ser, queue, holder, res, cc, reqs, resp, bad, ncalls,
+                   eofd, pc, ser, op, queue, holder, res, cc, bad, ncalls,
                    nfaults, ncancel, ncloses>>
+    /\ CP
 
 ClientNext ==
-    \/ \E i \in Callers : Internal(i)
+    \/ \E i \in Callers : Acquire(i)
+    \/ \E i \in Callers : Start(i)
+    \/ \E i \in Callers : Receive(i)
+    \/ \E i \in Callers : Fail(i)
     \/ \E i \in Callers, o \in Ops : Call(i, o)
-    \/ \E i \in Callers : Reconnect(i) \/ Cancel(i)
+    \/ \E i \in Callers : Reconnect(i)
+    \/ \E i \in Callers : Cancel(i)
     \/ \E f \in {"none"} \cup FaultKinds, k \in 1..Units : AgentProcess(f, k)
     \/ \E s \in Serials : ProcessOrphan(s)
+    \/ \E s \in Serials : ForgetOrphan(s)
     \/ \E n \in 1..(Units * 2) : DeliverChunk(n)
     \/ AgentCloses \/ DeliverEof \/ UserClose \/ ToggleListen
 
@@ -504,15 +553,17 @@ OpenSession(s) ==
     /\ sess' = [sess EXCEPT ![s] = "open"]
     /\ asked' = (asked \/ ClientFwd)
     /\ lsn' = (lsn \/ (ClientFwd /\ ServerFwd))
-    /\ lbl' = <<"session", s>>
+    /\ Lbl(<<"session", s>>)
     /\ UNCHANGED <<agentup, ch, up, down, dheld, fbad>>
+    /\ FP
 
 CloseSession(s) ==
     /\ dheld = <<>>
     /\ sess[s] = "open"
     /\ sess' = [sess EXCEPT ![s] = "closed"]
-    /\ lbl' = <<"endsession", s>>
+    /\ Lbl(<<"endsession", s>>)
     /\ UNCHANGED <<asked, lsn, agentup, ch, up, down, dheld, fbad>>
+    /\ FP
 
 ClientAccepts == ClientFwd /\ (ClientGate = "request" => asked)
 
@@ -535,8 +586,9 @@ OpenAgent(c, how) ==
             \cup (IF o = "open" /\ ~asked THEN {"beforerequest"} ELSE {})
             \cup (IF o = "open" /\ how # "rogue" /\ ~(ClientFwd /\ ServerFwd /\ asked)
                   THEN {"ungranted"} ELSE {})
-       /\ lbl' = <<"openagent", c, how, o>>
+       /\ Lbl(<<"openagent", c, how, o>>)
     /\ UNCHANGED <<sess, asked, lsn, agentup, up, down, dheld>>
+    /\ FP
 
 Live(c) == ch[c].st = "open"
 AgentGone(c) == down[c].end = "close" \/ up[c].endgot = "close"
@@ -549,8 +601,9 @@ SrvWrite(c) ==
     /\ up' = IF down[c].end = "close"       \* the agent has gone: dropped on the way
              THEN [up EXCEPT ![c].w = @ + 1, ![c].disc = @ + 1]
              ELSE [up EXCEPT ![c].w = @ + 1, ![c].held = @ + 1]
-    /\ lbl' = <<"swrite", c>>
+    /\ Lbl(<<"swrite", c>>)
     /\ UNCHANGED <<sess, asked, lsn, agentup, ch, down, dheld, fbad>>
+    /\ FP
 
 \* ... sends end of file (keeps reading) or closes (after its last write,
 \* without waiting for anything)
@@ -560,21 +613,24 @@ SrvEnd(c, e) ==
                         ![c].endheld = IF RelayEof /\ down[c].end # "close"
                                        THEN e ELSE "no",
                         ![c].held = IF DropOnClose /\ e = "close" THEN 0 ELSE @]
-    /\ lbl' = <<"send", c, e>>
+    /\ Lbl(<<"send", c, e>>)
     /\ UNCHANGED <<sess, asked, lsn, agentup, ch, down, dheld, fbad>>
+    /\ FP
 
 \* n held units reach the agent; the end marker follows the last one
 RelayUp(c, n) ==
     /\ Live(c) /\ n \in 1..up[c].held
     /\ up' = [up EXCEPT ![c].held = @ - n, ![c].got = @ + n]
-    /\ lbl' = <<"relayup", c, n>>
+    /\ Lbl(<<"relayup", c, n>>)
     /\ UNCHANGED <<sess, asked, lsn, agentup, ch, down, dheld, fbad>>
+    /\ FP
 
 RelayUpEnd(c) ==
     /\ Live(c) /\ up[c].held = 0 /\ up[c].endheld # "no"
     /\ up' = [up EXCEPT ![c].endheld = "no", ![c].endgot = up[c].endheld]
-    /\ lbl' = <<"relayupend", c>>
+    /\ Lbl(<<"relayupend", c>>)
     /\ UNCHANGED <<sess, asked, lsn, agentup, ch, down, dheld, fbad>>
+    /\ FP
 
 \* the agent writes a unit
 AgtWrite(c) ==
@@ -585,8 +641,9 @@ AgtWrite(c) ==
             /\ dheld' = dheld
        ELSE /\ down' = [down EXCEPT ![c].w = @ + 1]
             /\ dheld' = Append(dheld, <<c, "data">>)
-    /\ lbl' = <<"awrite", c>>
+    /\ Lbl(<<"awrite", c>>)
     /\ UNCHANGED <<sess, asked, lsn, agentup, ch, up, fbad>>
+    /\ FP
 
 \* ... half-closes or closes its connection
 AgtEnd(c, e) ==
@@ -598,8 +655,9 @@ AgtEnd(c, e) ==
              THEN [up EXCEPT ![c].disc = @ + up[c].held, ![c].held = 0,
                              ![c].endheld = "no"]
              ELSE up
-    /\ lbl' = <<"aend", c, e>>
+    /\ Lbl(<<"aend", c, e>>)
     /\ UNCHANGED <<sess, asked, lsn, agentup, ch, fbad>>
+    /\ FP
 
 \* everything held on the SSH link reaches the server side, in order
 Count(c, kind) == Cardinality({j \in 1..Len(dheld) : dheld[j] = <<c, kind>>})
@@ -612,16 +670,18 @@ RelayDown ==
            !.endgot = IF Count(c, "close") > 0 THEN "close"
                       ELSE IF Count(c, "eof") > 0 THEN "eof" ELSE @]]
     /\ dheld' = <<>>
-    /\ lbl' = <<"relaydown">>
+    /\ Lbl(<<"relaydown">>)
     /\ UNCHANGED <<sess, asked, lsn, agentup, ch, up, fbad>>
+    /\ FP
 
 ToggleAgent ==
-    /\ dheld = <<>>
+    /\ MaxToggle > 0 /\ dheld = <<>>
     /\ (agentup => \A c \in Chans : ch[c].st # "noagent")
     /\ \E c \in Chans : ch[c].st = "none"
     /\ agentup' = ~agentup
-    /\ lbl' = <<"agentup", ~agentup>>
+    /\ Lbl(<<"agentup", ~agentup>>)
     /\ UNCHANGED <<sess, asked, lsn, ch, up, down, dheld, fbad>>
+    /\ FP
 
 FwdNext ==
     \/ \E s \in Sessions : OpenSession(s) \/ CloseSession(s)
@@ -630,15 +690,13 @@ FwdNext ==
     \/ \E c \in Chans, e \in Ends : SrvEnd(c, e) \/ AgtEnd(c, e)
     \/ \E c \in Chans, n \in 1..MaxW : RelayUp(c, n)
     \/ RelayDown
-    \/ (MaxToggle > 0 /\ ToggleAgent)
+    \/ ToggleAgent
 
 -----------------------------------------------------------------------------
 Init ==
-    /\ ClientInit /\ FwdInit /\ lbl = <<"init">>
+    /\ ClientInit /\ FwdInit /\ lbl = <<"init">> /\ log = <<>>
 
-Next ==
-    \/ (Part = "client" /\ ClientNext /\ UNCHANGED fvars)
-    \/ (Part = "fwd" /\ FwdNext /\ UNCHANGED cvars)
+Next == ClientNext \/ FwdNext
 
 Spec == Init /\ [][Next]_vars
 
@@ -655,18 +713,12 @@ FairSpec ==
 TypeOK ==
     /\ conn \in {"none", "open"} /\ holder \in 0..NC
     /\ \A i \in Callers : pc[i] \in {"idle", "wait", "locked", "conn", "sent", "done"}
-    /\ Len(reqs) = ncalls /\ Len(resp) = ncalls
 
-\* each caller gets the answer to ITS request (the frame it consumed was
-\* produced for its own serial)
+\* each caller gets the answer to ITS request: the frame it consumed was
+\* produced for its own serial - and therefore says what the agent's store
+\* said when the agent handled that request (linearised in lock order)
 OwnResponse ==
     \A i \in Callers : pc[i] = "done" => res[i].from \in {0, ser[i]}
-
-\* ... and therefore what the agent's store said when it handled the request
-Linearised ==
-    \A i \in Callers :
-        (pc[i] = "done" /\ res[i].from # 0 /\ res[i].from = ser[i]) =>
-            res[i] = Decode(reqs[ser[i]].op, resp[ser[i]], ser[i])
 
 \* a request is only written on a connection with nothing outstanding
 NoStaleSend == "stalesend" \notin bad
@@ -677,28 +729,24 @@ Mutex == UseLock => Cardinality(Busy) <= 1 /\ (Busy # {} => Busy = {holder})
 Fifo == \A a, b \in 1..Len(queue) : a < b => ser[queue[a]] < ser[queue[b]]
 \* lazily, at most once per call
 ConnectOnce == \A i \in Callers : cc[i] <= 1
-ConnectLazy == conn = "open" => ncalls > 0
 \* sign requests carry the flags of the algorithm selected last
-FlagsRight ==
-    \A s \in 1..Len(reqs) :
-        reqs[s].op.k = "sign" => reqs[s].fl = WantFlags(reqs[s].op.a)
+FlagsRight == "flags" \notin bad
 \* a signature names the key and flags of the request it answers
 SignNamesKey ==
     \A i \in Callers :
-        (pc[i] = "done" /\ res[i].k = "ok" /\ reqs[ser[i]].op.k = "sign") =>
-            /\ res[i].key = reqs[ser[i]].op.key
-            /\ res[i].fl = WantFlags(reqs[ser[i]].op.a)
-\* an error that ends the connection is the caller's own: its connection
-\* attempt was refused, or its own connection ended before its answer
-\* was complete (never a stale frame)
-LostIsOwn ==
-    \A i \in Callers : (pc[i] = "done" /\ res[i].k = "lost") =>
-        res[i].from \in {0, ser[i]}
-
+        (pc[i] = "done" /\ res[i].k = "ok" /\ op[i].k = "sign") =>
+            /\ res[i].key = op[i].key
+            /\ res[i].fl = WantFlags(op[i].a)
 \* every call ends (under FairSpec)
 EveryCallEnds ==
     \A i \in Callers : (pc[i] \in {"wait", "locked", "conn", "sent"}) ~> (pc[i] = "done")
 
+\* behaviour export: one line per state in which every call has ended
+AllDone == \A i \in Callers : pc[i] \in {"idle", "done"}
+EmitScript ==
+    (Part = "client" /\ AllDone /\ ncalls = MaxCalls /\ ~InternalEnabled) =>
+        PrintT(ToString(<<"SCRIPT", log,
+                          [store |-> store, locked |-> locked, conn |-> conn]>>))
 \* witnesses (expected violated = reachable)
 NeverQueued == Len(queue) < 2
 NeverLostThenOk ==
@@ -707,7 +755,7 @@ NeverLostThenOk ==
 NeverCancelSent == ~(\E i \in Callers : res[i].k = "cancel" /\ orphans # {})
 NeverRemovedThenFail ==
     ~(\E i \in Callers : pc[i] = "done" /\ res[i].k = "fail" /\
-        reqs[ser[i]].op.k = "sign" /\ reqs[ser[i]].op.key \in InitStore /\ ~locked)
+        op[i].k = "sign" /\ op[i].key \in InitStore /\ ~locked)
 
 \* ---- properties, forwarding part ------------------------------------------
 \* an agent channel is only ever open when the client's option is on
@@ -738,6 +786,10 @@ CloseBoth ==
     Quiet => \A c \in Chans :
         /\ (up[c].end # "no" /\ down[c].end # "close" => up[c].endgot = up[c].end)
         /\ (down[c].end # "no" /\ up[c].end # "close" => down[c].endgot = down[c].end)
+
+EmitFwd ==
+    (Part = "fwd" /\ Quiet /\ \A c \in Chans : ch[c].st # "none") =>
+        PrintT(ToString(<<"SCRIPT", log, [lsn |-> lsn]>>))
 
 NeverOpen == \A c \in Chans : ch[c].st # "open"
 NeverRefused == \A c \in Chans : ch[c].st \notin {"prohibited", "disabled", "noagent"}
